@@ -237,6 +237,35 @@ static void directed(Rng& g, bool thorough) {
   }
 }
 
+// ---- (iv) rectangles that share one corner and hence two edge lines: three or more coincident axis-parallel edges start at one
+// vertex, so a hot vertical edge has hot horizontal neighbours at that vertex (CheckJoinLeft/CheckJoinRight, AddOutPt at a pinch)
+static void anchored(Rng& g, bool thorough) {
+  static const ClipType cts[4] = {ClipType::Intersection, ClipType::Union, ClipType::Difference, ClipType::Xor};
+  static const FillRule frs[4] = {FillRule::EvenOdd, FillRule::NonZero, FillRule::Positive, FillRule::Negative};
+  const int N = thorough ? 4000 : 300;
+  for (int it = 0; it < N; ++it) {
+    int corner = (int)(g.next() % 4), k = (int)g.range(3, 4);
+    bool same_orient = g.chance(70), ccw0 = g.coin();
+    Paths64 subj, clip;
+    for (int j = 0; j < k; ++j) {
+      int w = (int)g.range(1, 4), h = (int)g.range(1, 4);
+      if (g.chance(30)) h = 1 + (it % 3);                      // same height: a strip of nested widths
+      R q = (corner & 1) ? R{4 - w, 0, 4, h} : R{0, 0, w, h};
+      if (corner & 2) { q.b = 4 - h; q.t = 4; }
+      Path64 p = rect(q, same_orient ? ccw0 : g.coin());
+      if (g.chance(25)) std::rotate(p.begin(), p.begin() + (int)g.range(1, 3), p.end());
+      ((j == 0 || g.chance(55)) ? subj : clip).push_back(p);
+    }
+    stat("anchored.inputs");
+    stat(std::string("anchored.") + (same_orient ? (ccw0 ? "all_ccw" : "all_cw") : "mixed_orientation"));
+    int si = (int)(g.next() % 3);
+    Paths64 s2 = scaled(subj, SCALES[si]), c2 = scaled(clip, SCALES[si]);
+    for (int a = 0; a < 4; ++a)
+      for (int b = 0; b < 4; ++b)
+        run_one("anchored.scale" + std::to_string(si), s2, c2, cts[a], frs[b], g.coin(), g.chance(25), false);
+  }
+}
+
 int main(int argc, char** argv) {
   uint64_t seed = seed_from_args(argc, argv);
   bool thorough = thorough_from_args(argc, argv);
@@ -245,6 +274,7 @@ int main(int argc, char** argv) {
   random_walks(g, thorough);
   long_walks(g, thorough);
   directed(g, thorough);
+  anchored(g, thorough);
   stat("executions", n_exec);
   flush_stats();
   return 0;
